@@ -225,6 +225,14 @@ def report(prop, args, seed, meta, results, static_results, bounded_results, wal
     if n_obl == 0 and code == 0:
         code = 3
 
+    # obligations refuted only by listed known findings are reported separately, not as open obligations
+    n_known_refuted = 0
+    for o in refuted:
+        v = o.get("replay")
+        if v is not None and is_known(v, known) is not None:
+            n_known_refuted += 1
+    n_obl -= n_known_refuted
+
     # ---- evidence
     functions = sorted({f for m in meta.values() for f in ([m.target] if m.target else []) + list(m.functions)})
     trusted = sorted({t for m in meta.values() for t in m.trusted})
@@ -250,7 +258,8 @@ def report(prop, args, seed, meta, results, static_results, bounded_results, wal
             "contracts": sorted(meta.keys()),
             "by_backend": dict(by_backend),
             "by_strength": dict(by_strength),
-            "refuted": len(refuted) + len(static_failed),
+            "refuted": len(refuted) + len(static_failed) - n_known_refuted,
+            "refuted_by_known_findings": n_known_refuted,
             "unknown": len(unknown),
             "paths": sum(r["paths"] for r in results),
             "jobs": len(results),
